@@ -995,6 +995,13 @@ type sbData struct {
 
 // returns true if we set Block to blank 0 or some solid label
 func (b *Block) setBlank(octants [8]*Block) bool {
+	// A nil octant means "leave that part of the block unchanged" (see Downres), so the block can
+	// only be replaced by a solid one when all eight octants are given.
+	for i := 0; i < 8; i++ {
+		if octants[i] == nil {
+			return false
+		}
+	}
 	var ok bool
 	var lbl uint64
 	if octants[0] == nil {
